@@ -9,8 +9,8 @@ CONSTANTS
   Costs = {1, 2, 3}
   Steps = {1, 2, 3, 4, 7}
   Start = 0
-  MaxNow = 10
-  RenewAt = {8}
+  MaxNow = 8
+  RenewAt = {6}
   GenDepth = 0
   ReqWeight = 1
 SPECIFICATION IPSpec
